@@ -56,7 +56,7 @@ def base_of_assert(body, t):
     if len(ds) == 1 and ds[0][0] == "assign":
         rv = ds[0][3]["r"]
         if rv["k"] == "unop" and rv["op"] == "PtrMetadata":
-            return ("path", body.provenance(rv["o"]))
+            return ("path", body.provenance_u(rv["o"]))
         if rv["k"] == "use" and rv["o"]["c"] == "const":
             return ("const", rv["o"].get("int"))
     return ("path", body.local_path(l))
@@ -65,7 +65,7 @@ def base_of_assert(body, t):
 def index_of_assert(body, t):
     m = re.search(r"index: (?:move|copy) _(\d+)", t["msg"])
     if m:
-        return body.provenance({"c": "copy", "p": {"l": int(m.group(1)), "pr": [], "s": "", "ty": ""}})
+        return body.provenance_u({"c": "copy", "p": {"l": int(m.group(1)), "pr": [], "s": "", "ty": ""}})
     m = re.search(r"index: const (\d+)", t["msg"])
     if m:
         return "const:%s" % m.group(1)
@@ -186,12 +186,12 @@ def length_facts(body, blk, base, base_op=None):
         dc = base_def_call(body, base_op)
         if dc is not None:
             if dc.name in ("split_to",) and len(dc.args) >= 2:
-                out.append((body.provenance(dc.args[1]), 0, None))
+                out.append((body.provenance_u(dc.args[1]), 0, None))
                 vs = body.eval_ints(dc.args[1])
                 if vs:
                     out.append(("const:%d" % min(vs), 0, None))
             if dc.name in ("index", "index_mut") and len(dc.args) >= 2:
-                rp = body.provenance(dc.args[1])
+                rp = body.provenance_u(dc.args[1])
                 m = re.match(r"^Range\{const:(\d+),const:(\d+)\}$", rp)
                 if m:
                     out.append(("const:%d" % (int(m.group(2)) - int(m.group(1))), 0, None))
@@ -211,18 +211,18 @@ def length_facts(body, blk, base, base_op=None):
         a = g.atom
         if a[0] == "call" and g.truth is not None:
             c = a[1]
-            if c.name == "is_empty" and body.provenance(c.args[0]) == base and g.truth is False:
+            if c.name == "is_empty" and body.provenance_u(c.args[0]) == base and g.truth is False:
                 out.append(("const:0", 1, g))
-            if c.name == "has_remaining" and body.provenance(c.args[0]) == base and g.truth is True:
+            if c.name == "has_remaining" and body.provenance_u(c.args[0]) == base and g.truth is True:
                 out.append(("const:0", 1, g))
-            if c.name == "starts_with" and body.provenance(c.args[0]) == base and g.truth is True and len(c.args) >= 2:
-                out.append(("core::slice::len(%s)" % body.provenance(c.args[1]), 0, g))
+            if c.name == "starts_with" and body.provenance_u(c.args[0]) == base and g.truth is True and len(c.args) >= 2:
+                out.append(("core::slice::len(%s)" % body.provenance_u(c.args[1]), 0, g))
             continue
         if a[0] != "cmp" or g.truth is None:
             continue
         op = a[1]
         xo, yo = a[2], a[3]
-        x, y = body.provenance(xo), body.provenance(yo)
+        x, y = body.provenance_u(xo), body.provenance_u(yo)
         if not g.truth:
             op = {"Lt": "Ge", "Le": "Gt", "Gt": "Le", "Ge": "Lt", "Eq": "Ne", "Ne": "Eq"}[op]
         if rx.match(y) and not rx.match(x):
@@ -356,25 +356,25 @@ def requirement(body, blk, kind, call):
         return base, (("const:%d" % (ci + 1)) if ci is not None else "Add(%s,const:1)" % idx), bop
     c = call
     bop = c.args[0] if c.args else None
-    base = body.provenance(bop) if bop else None
+    base = body.provenance_u(bop) if bop else None
     if kind in ("index", "index_mut", "drain", "slice") and len(c.args) >= 2:
-        return base, range_end(body.provenance(c.args[1])), bop
+        return base, range_end(body.provenance_u(c.args[1])), bop
     if kind in ("split_to", "split_off", "advance", "copy_to_bytes") and len(c.args) >= 2:
-        return base, body.provenance(c.args[1]), bop
+        return base, body.provenance_u(c.args[1]), bop
     if kind.startswith("get_"):
         n = {"get_u8": 1, "get_i8": 1, "get_u16": 2, "get_i16": 2, "get_u32": 4, "get_i32": 4, "get_u64": 8, "get_i64": 8}.get(kind.replace("_le", ""))
         return base, (("const:%d" % n) if n else None), bop
     if kind == "copy_to_slice" and len(c.args) >= 2:
         dc = base_def_call(body, c.args[1])
         if dc is not None and dc.name == "from_elem" and len(dc.args) >= 2:
-            return base, body.provenance(dc.args[1]), bop
+            return base, body.provenance_u(dc.args[1]), bop
         return base, None, bop
     return base, None, bop
 
 
 def capacity_proved(body, blk, call):
     """growth of the 255-slot FrameBatch dominated by a comparison of its len() with the capacity constant"""
-    base = body.provenance(call.args[0]) if call.args else None
+    base = body.provenance_u(call.args[0]) if call.args else None
     if base is None:
         return None
     lenrx = re.compile(r"message::FrameBatch::len\(%s\)" % re.escape(base))
@@ -382,7 +382,7 @@ def capacity_proved(body, blk, call):
         if g.atom[0] != "cmp" or g.truth is None:
             continue
         op = g.atom[1]
-        x, y = simplify(body.provenance(g.atom[2])), simplify(body.provenance(g.atom[3]))
+        x, y = simplify(body.provenance_u(g.atom[2])), simplify(body.provenance_u(g.atom[3]))
         if not g.truth:
             op = {"Lt": "Ge", "Le": "Gt", "Gt": "Le", "Ge": "Lt", "Eq": "Ne", "Ne": "Eq"}[op]
         cap = lambda v: const_of(v) == 255 or v.endswith("FrameBatch::MAX_FRAMES")
@@ -397,11 +397,11 @@ def capacity_proved(body, blk, call):
 
 def unwrap_proved(body, blk, call):
     """Option::unwrap dominated by is_some()/is_none() of the same value; try_into().unwrap() of a constant-width range into an array"""
-    prov = body.provenance(call.args[0])
+    prov = body.provenance_u(call.args[0])
     for g in body.guards(blk, select_aware=False):
         if g.atom[0] == "call" and g.truth is not None:
             c = g.atom[1]
-            if c.args and body.provenance(c.args[0]) == prov:
+            if c.args and body.provenance_u(c.args[0]) == prov:
                 if (c.name == "is_none" and g.truth is False) or (c.name == "is_some" and g.truth is True) or (c.name == "is_ok" and g.truth is True) or (c.name == "is_err" and g.truth is False):
                     return "dominated by %s() == %s on the same value" % (c.name, g.truth)
     if "try_into(" in prov:
@@ -412,7 +412,7 @@ def unwrap_proved(body, blk, call):
         if dc is not None and dc.name == "try_into" and m and dc.args:
             ic = base_def_call(body, dc.args[0])
             if ic is not None and ic.name in ("index",) and len(ic.args) >= 2:
-                r = body.provenance(ic.args[1])
+                r = body.provenance_u(ic.args[1])
                 if r.startswith("Range{"):
                     a, b = _split_top(r[len("Range{"):-1])
                     k = int(m.group(1))
@@ -439,7 +439,7 @@ def exact_len(body, o, depth=0):
     if m:
         return int(m.group(1))
     if dc.name in ("index", "index_mut") and len(dc.args) >= 2:
-        r = simplify(body.provenance(dc.args[1]))
+        r = simplify(body.provenance_u(dc.args[1]))
         m = re.match(r"^Range\{const:(\d+),const:(\d+)\}$", r)
         if m:
             return int(m.group(2)) - int(m.group(1))
@@ -458,7 +458,7 @@ def exact_len(body, o, depth=0):
             return int(m.group(1) or m.group(2))
         return exact_len(body, dc.args[0], depth + 1)
     if dc.name == "split_to" and len(dc.args) >= 2:
-        return const_of(simplify(body.provenance(dc.args[1])))
+        return const_of(simplify(body.provenance_u(dc.args[1])))
     return None
 
 
@@ -543,9 +543,9 @@ def panic_sites(prog):
                     mac = (t.get("exp") or "").split("<")[-1].replace("macro:", "")
                     kind, base = "panic:" + (mac or c.name), None
                 elif nm in ("unwrap", "expect", "unwrap_err", "expect_err"):
-                    kind, base = nm, body.provenance(c.args[0])
+                    kind, base = nm, body.provenance_u(c.args[0])
                 else:
-                    kind, base = nm, (body.provenance(c.args[0]) if c.args else None)
+                    kind, base = nm, (body.provenance_u(c.args[0]) if c.args else None)
             if kind is None:
                 continue
             ids = re.findall(r"[A-Za-z_][A-Za-z_0-9]*", re.sub(r"@\w+|\bconst\b", "", base or ""))
@@ -559,9 +559,9 @@ def panic_sites(prog):
 
 def describe_guard(body, g):
     if g.atom[0] == "call":
-        return "%s(%s)==%s" % (g.atom[1].callee, body.provenance(g.atom[1].args[0]) if g.atom[1].args else "", g.truth)
+        return "%s(%s)==%s" % (g.atom[1].callee, body.provenance_u(g.atom[1].args[0]) if g.atom[1].args else "", g.truth)
     if g.atom[0] == "cmp":
-        return "cmp %s %s %s ==%s" % (g.atom[1], body.provenance(g.atom[2]), body.provenance(g.atom[3]), g.truth)
+        return "cmp %s %s %s ==%s" % (g.atom[1], body.provenance_u(g.atom[2]), body.provenance_u(g.atom[3]), g.truth)
     if g.atom[0] in ("place", "discr"):
         return "%s %s [%s]" % (g.atom[0], g.atom[1], g.label)
     return g.atom[0]
@@ -628,7 +628,7 @@ def r2_maxmsgsize(chk):
                 a, pol = body.cond_atom(t["d"])
                 if a[0] != "cmp":
                     continue
-                x, y = body.provenance(a[2]), body.provenance(a[3])
+                x, y = body.provenance_u(a[2]), body.provenance_u(a[3])
                 if "max_msg_size" not in x and "max_msg_size" not in y:
                     continue
                 op = a[1]
@@ -668,7 +668,7 @@ def r2_maxmsgsize(chk):
             sites = []
             for b, i, st in body.statements():
                 if st["k"] == "assign" and st["r"]["k"] == "cast" and st["r"]["ck"] == "IntToInt" and st["r"]["from"] == "u64" and st["r"]["to"] == "usize":
-                    if "from_be_bytes" in body.provenance(st["r"]["o"]) or "raw_size" in body.provenance(st["r"]["o"]):
+                    if "from_be_bytes" in body.provenance_u(st["r"]["o"]) or "raw_size" in body.provenance_u(st["r"]["o"]):
                         sites.append((b, "raw_size as usize"))
             for c in body.calls:
                 if c.name in ("split_to", "to_vec", "slice", "with_capacity", "reserve", "copy_to_bytes") and c.blk in body.live_blocks():
@@ -700,7 +700,7 @@ def r3_accumulator_cap(chk):
                 ok = False
                 for g in body.guards(c.blk, select_aware=False):
                     nc = norm_cmp(body, g)
-                    if nc and "buffer_len" in body.provenance(g.atom[2]) + body.provenance(g.atom[3]) and isinstance(nc[2], int):
+                    if nc and "buffer_len" in body.provenance_u(g.atom[2]) + body.provenance_u(g.atom[3]) and isinstance(nc[2], int):
                         lo, hi = interval(nc[1], nc[2])
                         if hi != INF and hi <= 64 * 1024 * 1024:
                             ok = True
@@ -786,7 +786,7 @@ def r6_permit(chk):
                 rv = st["r"]
                 if rv.get("adt", "").endswith("SessionConnectionActorX") and "_connection_permit" in rv.get("fields", []):
                     idx = rv["fields"].index("_connection_permit")
-                    prov = body.provenance(rv["ops"][idx])
+                    prov = body.provenance_u(rv["ops"][idx])
                     key = "%s|constructs session with permit" % short(body.path)
                     if prov in ("const",) or "None" in prov:
                         r.bad(cfg, key, where(body, b), "session constructed with a constant permit value")
